@@ -10,12 +10,16 @@
               W<nbytes>[:…]                   the same with SFC_SET_UPDATE_HEADER_AUTO on
               u                               SFC_UPDATE_HEADER_NOW
               c                               sf_close
-              d                               report the store: hdr=<hex> dlen=<n> tail=<hex>
+              x<ty>@<hex items>[:peaks]       one write call of caller items of type s16|s32|f32|f64 (fixed-width hex, as in
+                                              harness scripts), encoded by the configuration's encoder (SfModel/AiffAudio.lean)
+              X<ty>@…                         the same in auto-header mode
+              d                               report the store: hdr=<hex> dlen=<n> tail=<hex> [data=<hex> when typed writes were used]
                                     -> the `d` reports joined by " | "   (`bad-config` when kindOf is none)
     parse <hex of a whole file>     -> ok ch=<n> sr=<n> frames=<n> fmt=<8 hex> | err | unmodelled
 -/
 import SfModel.Basic
 import SfModel.Aiff
+import SfModel.AiffAudio
 import Driver.Util
 open Sf (hexBytes hexFixed parseHexBytes parseHexNat)
 open Sf.Aiff
@@ -35,23 +39,37 @@ def cfgOf (toks : List String) : Cfg :=
 def intOf (s : String) : Int :=
   if s.startsWith "-" then - ((s.drop 1).toNat?.getD 0 : Nat) else ((s.toNat?.getD 0 : Nat) : Int)
 
-def report (s : St) : String := s!"hdr={hexBytes s.hdr} dlen={s.data.length} tail={hexBytes s.tail}"
+def report (s : St) (typed : Bool) : String :=
+  s!"hdr={hexBytes s.hdr} dlen={s.data.length} tail={hexBytes s.tail}" ++ (if typed then s!" data={hexBytes s.data}" else "")
 
-def runOps (c : Cfg) (k : Kind) (ops : List String) (s : St) (acc : List String) : List String :=
+def runOps (c : Cfg) (k : Kind) (ops : List String) (s : St) (acc : List String) (typed : Bool := false) : List String :=
   match ops with
   | [] => acc.reverse
   | op :: rest =>
-    if op == "u" then runOps c k rest (update c k s) acc
-    else if op == "c" then runOps c k rest (close c k s) acc
-    else if op == "d" then runOps c k rest s (report s :: acc)
+    if op == "u" then runOps c k rest (update c k s) acc typed
+    else if op == "c" then runOps c k rest (close c k s) acc typed
+    else if op == "d" then runOps c k rest s (report s typed :: acc) typed
+    else if op.startsWith "x" || op.startsWith "X" then
+      -- x<ty>@<hex>[:peaks]
+      let body := (op.drop 1).toString
+      let (lhs, pk) := match body.splitOn ":" with
+        | [a] => (a, none)
+        | [a, p] => (a, some (parsePeaks p))
+        | _ => ("", none)
+      match lhs.splitOn "@", encOf c k with
+      | [tyS, hex], some e =>
+        match tyOf tyS with
+        | some ty => runOps c k rest (writeSamples c k s e {} ty (parseItems ty hex) pk (op.startsWith "X")) acc true
+        | none => runOps c k rest s acc typed
+      | _, _ => runOps c k rest s acc typed
     else if op.startsWith "w" || op.startsWith "W" then
       let body := (op.drop 1).toString
       let (n, pk) := match body.splitOn ":" with
         | [n] => (n.toNat?.getD 0, none)
         | [n, p] => (n.toNat?.getD 0, some (parsePeaks p))
         | _ => (0, none)
-      runOps c k rest (write c k s (List.replicate n 0) pk (op.startsWith "W")) acc
-    else runOps c k rest s acc
+      runOps c k rest (write c k s (List.replicate n 0) pk (op.startsWith "W")) acc typed
+    else runOps c k rest s acc typed
 
 def showRes : ParseRes → String
   | .ok i => s!"ok ch={i.ch} sr={i.sr} frames={i.frames} fmt={hexFixed 8 i.fmt}"
